@@ -33,6 +33,9 @@ func ReadEncryptedLeaseSet(data []byte) (els EncryptedLeaseSet, remainder []byte
 	}
 
 	if err = els.Validate(); err != nil {
+		// A structure that is refused is not handed out: the fields parsed so far include a
+		// complete, possibly valid signature, and Verify() on the returned value would succeed.
+		els, remainder = EncryptedLeaseSet{}, nil
 		return
 	}
 
